@@ -2521,7 +2521,7 @@ class x86_mn(x86_mn_base):
                             elif read_prefix == [0xF3]:
                                 self.opmode = xmm
                                 self.admode = xmm
-                                if not swap_args: raise ValueError('Invalid')
+                                if not swap_args: return None # F3 0F 6E is not an instruction
                                 swap_args = False
                         else:
                             log.debug('Unknown MMX', m.name)
@@ -2561,7 +2561,8 @@ class x86_mn(x86_mn_base):
                             if   read_prefix == [0x66]:
                                 modr[x86_afs.size] = x86_afs.f32
                             elif read_prefix == [0xF2]:
-                                NEVER
+                                # F2 0F 6E/7E is not an instruction
+                                return None
                             elif read_prefix == [0xF3]:
                                 modr[x86_afs.size] = x86_afs.f64
                         elif '#ps#' in m.name or m.name == 'mov#ups#':
@@ -2575,7 +2576,8 @@ class x86_mn(x86_mn_base):
                             elif read_prefix == [0x66]:
                                 modr[x86_afs.size] = x86_afs.f64
                             elif read_prefix == [0xF2] or read_prefix == [0xF3]:
-                                NEVER
+                                # (u)comiss/(u)comisd have no F2/F3 form
+                                return None
                         elif '#ps2pi' in m.name or '#ps2pd' in m.name:
                             if read_prefix == [] or read_prefix == [0xF2]:
                                 modr[x86_afs.size] = x86_afs.f64
